@@ -608,9 +608,12 @@ class MyPyAstVisitor:
                                 if isinstance(type_, sds_types.NamedType | sds_types.TupleType):
                                     types.add(type_)
                     elif hasattr(return_stmt.expr, "node") and getattr(return_stmt.expr.node, "is_self", False):
-                        # The result type is an instance of the parent class
-                        expr_type = return_stmt.expr.node.type.type
-                        types.add(sds_types.NamedType(name=expr_type.name, qname=expr_type.fullname))
+                        # The result type is an instance of the parent class. Mypy does not know the type of "self" in
+                        # functions it does not analyse (e.g. unreachable code or functions with @no_type_check)
+                        self_type = return_stmt.expr.node.type
+                        if isinstance(self_type, mp_types.Instance):
+                            expr_type = self_type.type
+                            types.add(sds_types.NamedType(name=expr_type.name, qname=expr_type.fullname))
                     else:
                         type_ = mypy_expression_to_sds_type(return_stmt.expr)
                         if isinstance(type_, sds_types.NamedType | sds_types.TupleType):
